@@ -26,6 +26,10 @@ AdvertiseDiscoveryResult build_transport_advertise_candidates(const Config& conf
                                                              std::uint16_t transport_port,
                                                              const NatTraversalResult& traversal);
 
+// True for hosts that must not be auto-advertised unless private addresses are allowed: unspecified,
+// loopback, private, link-local, CGNAT, documentation/benchmark and multicast/reserved addresses.
+bool is_non_routable_advertise_host(const std::string& host);
+
 // Returns the first candidate discovered via a routable STUN method so
 // callers can decide whether to auto-expose the control plane.
 std::optional<Config::AdvertiseCandidate> select_public_advertise_candidate(const AdvertiseDiscoveryResult& result);
